@@ -150,6 +150,7 @@ let value_of_tok (s : string) : value =
       (* decimal -> hex via OCaml ints is not exact beyond 62 bits; args use small ints or hex form "ix..." *)
       let z = z_of_int (int_of_string d) in
       VInt (if neg then Z.opp z else z)
+    | 'I' -> VInt (z_of_hex (String.sub s 1 (String.length s - 1)))
     | 'f' -> VFlt (of_bits (z_of_hex (String.sub s 1 (String.length s - 1))))
     | 's' -> VStr (str_of_hex (String.sub s 1 (String.length s - 1)))
     | _ -> failwith ("bad arg value " ^ s)
